@@ -4,7 +4,8 @@
 package auth
 
 //@ func (p *Authenticator) redeemCode(host string, code string) (*sessions.SessionState, error)
-//@   modifies everything
+//@   modifies clock
+//@   fresh result.0
 //@   ensures [C10 C09] session_needs_email: result.1 == nil ==> result.0 != nil && called(@Redeem#1) && @Redeem#1.1 == nil && result.0 == @Redeem#1.0 && result.0.Email != ""
 //@   ensures [C10] no_session_on_error: result.1 != nil ==> result.0 == nil
 
@@ -98,3 +99,65 @@ package auth
 //@   sink [C18] security_headers_before_inner_handler: ServeHTTP requires $arg0 == rw && $arg1 == req && hdrIs(rw.$hdr, "Strict-Transport-Security", "max-age=31536000") && hdrIs(rw.$hdr, "X-Frame-Options", "DENY") && hdrIs(rw.$hdr, "X-Content-Type-Options", "nosniff") && hdrIs(rw.$hdr, "X-Xss-Protection", "1; mode=block") && hdrIs(rw.$hdr, "Content-Security-Policy", "default-src 'none'; style-src 'self'; img-src 'self';") && hdrIs(rw.$hdr, "Referrer-Policy", "Same-origin")
 //@   loop 1
 //@     invariant forall k string {canonhdr(k)} :: visited(k) ==> (k in securityHeaders) && hdrIs(rw.$hdr, canonhdr(k), securityHeaders[k])
+
+// ---- C09: codes only for live, provider-confirmed, allowed sessions -----------------------------------------
+// S: the session LoadSession opened from the authenticator cookie.
+//@ func (p *Authenticator) authenticate(rw http.ResponseWriter, req *http.Request) (*sessions.SessionState, error)
+//@   requires fresh_response: rw.$sessionCookie == 0
+//@   modifies rw.$sessionCookie, rw.$saved, clock
+//@   let S = @LoadSession#1.0
+//@   let refreshed = called(@RefreshSessionIfNeeded#1) && @RefreshSessionIfNeeded#1.0 && @RefreshSessionIfNeeded#1.1 == nil && arg(@RefreshSessionIfNeeded#1, 1) == S && called(@SaveSession#1) && @SaveSession#1 == nil && arg(@SaveSession#1, 3) == S
+//@   let validated = called(@ValidateSessionState#1) && @ValidateSessionState#1 && arg(@ValidateSessionState#1, 1) == S && called(@SaveSession#2) && @SaveSession#2 == nil && arg(@SaveSession#2, 3) == S
+//@   ensures [C09] authentic_and_live: result.1 == nil ==> result.0 == S && S != nil && called(@LoadSession#1) && @LoadSession#1.1 == nil && arg(@LoadSession#1, 1) == req && S.LifetimeDeadline >= old(clock)
+//@   ensures [C09] provider_confirmed: result.1 == nil ==> refreshed || validated
+//@   ensures [C09] refresh_when_due: result.1 == nil && at(@LoadSession#1, S.RefreshDeadline) < old(clock) ==> refreshed
+//@   ensures [C09] email_rule: result.1 == nil ==> called(@RunValidators#1) && arg(@RunValidators#1, 0) == p.Validators && arg(@RunValidators#1, 1) == S && len(@RunValidators#1) < len(p.Validators)
+//@   ensures [C09] lifetime_never_extended: called(@LoadSession#1) && @LoadSession#1.1 == nil ==> S.LifetimeDeadline == at(@LoadSession#1, S.LifetimeDeadline) && S.Email == at(@LoadSession#1, S.Email)
+//@   ensures [C09] no_session_on_error: result.1 != nil ==> result.0 == nil
+//@   ensures [C09] provider_denial_clears_cookie: result.1 != nil && !called(@RunValidators#1) ==> rw.$sessionCookie == 2
+
+//@ func getAuthCodeRedirectURL(redirectURL *url.URL, state string, authCode string, scheme string) (string, error)
+//@   modifies nothing
+//@   let U = @Parse#1.0
+//@   let Q = arg(@Encode#1, 0)
+//@   ensures [C07 C09] same_target_plus_code: result.1 == nil ==> called(@Parse#1) && @Parse#1.1 == nil && arg(@Parse#1, 0) == @String#1 && arg(@String#1, 0) == redirectURL && called(@String#2) && arg(@String#2, 0) == U && result.0 == @String#2 && at(@String#2, U.Host) == at(@Parse#1, U.Host) && at(@String#2, U.Path) == at(@Parse#1, U.Path) && at(@String#2, U.Scheme) == scheme && at(@String#2, U.RawQuery) == @Encode#1 && at(@Encode#1, formGet(Q, "code")) == authCode && at(@Encode#1, formGet(Q, "state")) == state
+//@   ensures result.1 != nil ==> result.0 == ""
+
+//@ func (p *Authenticator) ProxyOAuthRedirect(rw http.ResponseWriter, req *http.Request, session *sessions.SessionState, tags []string)
+//@   requires fresh_response: rw.$status == 0
+//@   let F = at(@ParseForm#1, req.Form)
+//@   sink [C09] code_seals_this_session: MarshalSession requires $arg0 == session && $arg1 == p.AuthCodeCipher
+//@   ensures [C07 C09] code_goes_to_the_validated_uri: rw.$status == 302 ==> called(@MarshalSession#1) && @MarshalSession#1.1 == nil && called(@Parse#1) && arg(@Parse#1, 0) == formGet(F, "redirect_uri") && @Parse#1.1 == nil && called(@getAuthCodeRedirectURL#1) && @getAuthCodeRedirectURL#1.1 == nil && arg(@getAuthCodeRedirectURL#1, 0) == @Parse#1.0 && arg(@getAuthCodeRedirectURL#1, 1) == formGet(F, "state") && arg(@getAuthCodeRedirectURL#1, 2) == @MarshalSession#1.0 && arg(@getAuthCodeRedirectURL#1, 3) == p.Scheme && rw.$location == @getAuthCodeRedirectURL#1.0
+//@   ensures [C09] session_cookie_untouched: rw.$sessionCookie == old(rw.$sessionCookie)
+
+//@ func (p *Authenticator) SignIn(rw http.ResponseWriter, req *http.Request)
+//@   requires fresh_response: rw.$status == 0 && rw.$sessionCookie == 0
+//@   sink [C09] code_only_when_authenticated: ProxyOAuthRedirect requires called(@authenticate#1) && @authenticate#1.1 == nil && arg(@authenticate#1, 1) == rw && arg(@authenticate#1, 2) == req && $arg1 == rw && $arg2 == req && $arg3 == @authenticate#1.0
+//@   ensures [C09] otherwise_no_redirect: !called(@ProxyOAuthRedirect#1) ==> rw.$redirects == old(rw.$redirects) && rw.$status != 302
+
+// state = base64url(nonce ":" redirect). The session is saved only when the nonce equals the CSRF cookie.
+//@ func (p *Authenticator) getOAuthCallback(rw http.ResponseWriter, req *http.Request) (string, error)
+//@   requires fresh_response: rw.$sessionCookie == 0
+//@   modifies rw.$sessionCookie, rw.$saved, rw.$csrfCookie, req.Form, req.PostForm, clock
+//@   let F = at(@ParseForm#1, req.Form)
+//@   let parts = @SplitN#1
+//@   sink [C09] session_only_on_nonce_match: SaveSession requires called(@ParseForm#1) && @ParseForm#1 == nil && formGet(F, "error") == "" && called(@redeemCode#1) && @redeemCode#1.1 == nil && arg(@redeemCode#1, 2) == formGet(F, "code") && $arg2 == @redeemCode#1.0 && called(@DecodeString#1) && @DecodeString#1.1 == nil && arg(@DecodeString#1, 1) == formGet(F, "state") && arg(@SplitN#1, 0) == @DecodeString#1.0 && len(parts) == 2 && called(@GetCSRF#1) && @GetCSRF#1.1 == nil && arg(@GetCSRF#1, 1) == req && at(@GetCSRF#1, @GetCSRF#1.0.Value) == at(@SplitN#1, parts[0])
+//@   sink [C09 C07] redirect_in_domain_and_user_allowed: SaveSession requires called(@validRedirectURI#1) && @validRedirectURI#1 && arg(@validRedirectURI#1, 0) == at(@SplitN#1, parts[1]) && arg(@validRedirectURI#1, 1) == p.ProxyRootDomains && called(@RunValidators#1) && arg(@RunValidators#1, 0) == p.Validators && arg(@RunValidators#1, 1) == @redeemCode#1.0 && len(@RunValidators#1) < len(p.Validators)
+//@   ensures [C09 C07] returns_validated_redirect: result.1 == nil ==> called(@SaveSession#1) && @SaveSession#1 == nil && called(@validRedirectURI#1) && @validRedirectURI#1 && result.0 == arg(@validRedirectURI#1, 0)
+//@   ensures [C09] no_cookie_otherwise: result.1 != nil ==> rw.$sessionCookie == 0
+//@   ensures [C09] errors_are_4xx_5xx: typeis(result.1, "auth.HTTPError") ==> unbox(result.1, "auth.HTTPError").Code >= 400
+//@   loop 1
+//@     invariant true
+
+//@ func (p *Authenticator) OAuthCallback(rw http.ResponseWriter, req *http.Request)
+//@   requires fresh_response: rw.$status == 0 && rw.$sessionCookie == 0
+//@   sink [C07 C09] redirect_only_after_callback_checks: Redirect requires called(@getOAuthCallback#1) && @getOAuthCallback#1.1 == nil && $arg0 == rw && $arg2 == @getOAuthCallback#1.0
+//@   ensures [C09] error_is_not_a_redirect: called(@getOAuthCallback#1) && @getOAuthCallback#1.1 != nil ==> rw.$status != 302 && rw.$status != 0 && rw.$redirects == old(rw.$redirects)
+
+// /start: the IdP login starts only for a redirect_uri that is in-domain and whose nested proxy redirect is
+// in-domain and signed; the browser is sent to the provider's own sign-in URL.
+//@ func (p *Authenticator) OAuthStart(rw http.ResponseWriter, req *http.Request)
+//@   requires fresh_response: rw.$status == 0
+//@   sink [C07] idp_login_only_for_signed_in_domain_uri: GetSignInURL requires called(@validRedirectURI#1) && @validRedirectURI#1 && called(@validRedirectURI#2) && @validRedirectURI#2 && called(@validSignature#1) && @validSignature#1 && arg(@validSignature#1, 0) == arg(@validRedirectURI#2, 0) && arg(@validSignature#1, 3) == p.ProxyClientSecret && arg(@validRedirectURI#1, 1) == p.ProxyRootDomains && arg(@validRedirectURI#2, 1) == p.ProxyRootDomains
+//@   sink [C07] redirect_to_provider_sign_in: Redirect requires $arg0 == rw && called(@GetSignInURL#1) && $arg2 == @GetSignInURL#1
+//@   ensures [C07] refused_is_400: !called(@GetSignInURL#1) ==> rw.$status == 400
